@@ -106,6 +106,10 @@ type Step struct {
 	// previous Send of the sequence may still have a node parked inside Process; the driver gives them 30 ms to finish
 	// or block, then calls Send; they count as made before the Send (on a correct tree they finish at once)
 	Async []Op `json:"async,omitempty"`
+	// StressMs: before Ops, for this many milliseconds, four goroutines Send events of type StressEty as fast as they can
+	// while a fifth toggles both thresholds of that type; unrecorded (no trace); every one of those Sends must return
+	StressMs  int `json:"stress_ms,omitempty"`
+	StressEty int `json:"stress_ety,omitempty"`
 	Ety   int   `json:"ety"`
 	Gate  []int `json:"gate,omitempty"`
 	Sched Sched `json:"sched"`
@@ -114,7 +118,9 @@ type Step struct {
 // behaviour codes of a harness node per visit: 0 pass (return the event), 1 replace (return a fresh event),
 // 2 drop (nil, nil), 3 error (nil, err), 4 event and error, 5 error: a package-level sentinel value, 6 error: the node's stored value,
 // 70+k error: a bare *multierror.Error holding k errors (k = 0..3), 80+k error: such a multierror wrapped with %w,
-// 8 the same event mutated (FormattedAs) and returned, 90..97 well-known / odd error values (see stdErr)
+// 8 the same event mutated (FormattedAs) and returned, 90..97 well-known / odd error values (see stdErr),
+// 100+j the node makes the registry call Reent[j] of the case from inside Process and passes the event on,
+// 110 / 111 / 112 the node writes the exported field Formatted[k] / Payload / Type of the Event directly and passes it on
 type Case struct {
 	ID    int     `json:"id"`
 	Gen   string  `json:"gen"`
@@ -124,6 +130,9 @@ type Case struct {
 	Gate  []int   `json:"gate,omitempty"` // objects whose Process blocks until Send has returned
 	Sched Sched   `json:"sched"`
 	Then  []Step  `json:"then,omitempty"` // further registry calls and Sends on the same Broker
+	// Reent: registry calls the nodes themselves make from inside Process (behaviour code 100+j makes call Reent[j], then
+	// passes the event on)
+	Reent []Op `json:"reent,omitempty"`
 	// Payload of every Send of the case: 0 a fresh pointer, 1 nil, 2 a string, 3 a struct value
 	Payload int `json:"payload,omitempty"`
 	// Clock: 0 the Broker's clock is left alone, 1 StopTimeAt(a fixed instant in the past), 2 StopTimeAt(the zero time),
@@ -334,6 +343,38 @@ func (n *hnode) Process(ctx context.Context, e *el.Event) (*el.Event, error) {
 		out = e
 	case 90, 91, 92, 93, 94, 95, 96, 97:
 		err = stdErr(n.obj, visit, code)
+	case 110:
+		// writes the exported format table directly (no FormattedAs): must stay private to this Send's Event
+		if e.Formatted == nil {
+			e.Formatted = map[string][]byte{}
+		}
+		e.Formatted[fmt.Sprintf("direct-%d", n.obj)] = []byte{1}
+		out = e
+	case 111:
+		r.mu.Lock()
+		r.dirtied = true
+		r.mu.Unlock()
+		e.Payload = fmt.Sprintf("overwritten by %d", n.obj)
+		out = e
+	case 112:
+		r.mu.Lock()
+		r.dirtied = true
+		r.mu.Unlock()
+		e.Type = el.EventType("overwritten")
+		out = e
+	default:
+		if code >= 100 && code < 110 {
+			// a registry call from inside Process, during the fan-out (one at a time, recorded in the order made)
+			if j := code - 100; j < len(n.w.reent) {
+				n.w.reentMu.Lock()
+				n.w.apply(n.w.reent[j], n.w.c)
+				r.mu.Lock()
+				r.during = append(r.during, n.w.reent[j])
+				r.mu.Unlock()
+				n.w.reentMu.Unlock()
+			}
+			out = e
+		}
 	}
 	r.mu.Lock()
 	r.inProcess--
@@ -434,6 +475,9 @@ type rec struct {
 	gate                                                map[int]bool
 	clock                                               *time.Time
 	anyCall                                             bool
+	dirtied                                             bool // a node of this Send overwrote Payload / Type of the shared Event
+	during                                              []Op // registry calls made by nodes during this Send
+	w                                                   *world
 }
 
 func (r *rec) internEv(e *el.Event) int {
@@ -590,6 +634,21 @@ func (r *rec) hook(name string, args ...interface{}) {
 	case "range.check", "root.start", "task.exit", "node.call", "node.ret", "send.before", "send.aborted", "send.delivered", "spawn":
 		ref = args[1]
 		pk, ok := r.refs[ref]
+		if !ok && len(r.during) > 0 && r.w != nil {
+			// a node registered a pipeline during this Send: learn its linked nodes
+			r.mu.Unlock()
+			roots, _ := r.w.b.VerifRoots(r.sentType)
+			r.mu.Lock()
+			for id, chain := range roots {
+				for kk, l := range chain {
+					if _, known := r.refs[l.Ref]; !known {
+						r.refs[l.Ref] = [2]int{unN(string(id)), kk}
+						r.refObj[l.Ref] = objOf(l.Node)
+					}
+				}
+			}
+			pk, ok = r.refs[ref]
+		}
 		if !ok {
 			r.unknownRefs++
 			p, k = 9999, 0
@@ -632,7 +691,7 @@ func (r *rec) hook(name string, args ...interface{}) {
 			}
 			// the format table is looked at when nothing of this Send can have written to it yet (all pipelines share the Event)
 			fmtOK := e.Formatted != nil && (r.anyCall || len(e.Formatted) == 0)
-			e0 := e.Type == r.sentType && e.Payload == r.payload && timeOK && fmtOK
+			e0 := (r.dirtied || (e.Type == r.sentType && e.Payload == r.payload)) && timeOK && fmtOK
 			if !e0 {
 				r.event0ok = false
 			}
@@ -713,6 +772,9 @@ func (r *rec) hook(name string, args ...interface{}) {
 
 // ---------- running one case ----------
 type world struct {
+	c           *Case
+	reent       []Op
+	reentMu     sync.Mutex
 	payloadKind int
 	clock       *time.Time
 	b      *el.Broker
@@ -839,6 +901,9 @@ type Result struct {
 	AsyncBlocked bool     `json:"third_party_registry_call_did_not_finish_within_30ms,omitempty"`
 	SnapshotBlocked bool  `json:"read_only_registry_snapshot_blocked_for_2s,omitempty"`
 	StatusChangedLater bool `json:"returned_status_changed_after_later_calls,omitempty"`
+	During     []Op       `json:"registry_calls_made_by_nodes_during_this_send,omitempty"`
+	StressSends int       `json:"stress_sends,omitempty"`
+	StressHung bool       `json:"stress_send_or_setter_did_not_return,omitempty"`
 	Panic      string     `json:"panic,omitempty"`
 	HoldTO     int        `json:"hold_timeouts,omitempty"`
 	RecvTO     int        `json:"recv_timeouts,omitempty"`
@@ -916,7 +981,7 @@ func (w *world) startSend(etyN int, gate []int, sched Sched) *flight {
 	b := w.b
 	f := &flight{w: w, done: make(chan struct{})}
 	r := &rec{refs: map[interface{}][2]int{}, refObj: map[interface{}]int{}, occ: map[pkey]int{}, evIDs: map[*el.Event]int{},
-		sched: sched, event0ok: true, sentType: ety(etyN), gate: map[int]bool{}}
+		sched: sched, event0ok: true, sentType: ety(etyN), gate: map[int]bool{}, w: w}
 	f.r = r
 	for _, g := range gate {
 		r.gate[g] = true
@@ -1082,6 +1147,7 @@ func (f *flight) finish() Result {
 	res.Points = append([]Point(nil), r.points...)
 	res.NodeCalls = append([][2]int(nil), r.nodecalls...)
 	res.NodeRets = append([]tev(nil), r.noderets...)
+	res.During = append([]Op(nil), r.during...)
 	res.Event0OK = r.event0ok
 	res.Cancelled = r.cancelled
 	res.HoldTO, res.RecvTO, res.Unknown = r.holdTimeouts, r.recvTimeouts, r.unknownRefs
@@ -1119,10 +1185,70 @@ func (f *flight) finish() Result {
 	return *res
 }
 
+// stress: four senders and a goroutine toggling both thresholds of the type, for ms milliseconds; returns the number of Sends
+// completed and whether a sender or the setter failed to come back within 3 s after the stop signal
+func (w *world) stress(etyN, ms int) (int, bool) {
+	stop := make(chan struct{})
+	var wg sync.WaitGroup
+	var mu sync.Mutex
+	total := 0
+	for i := 0; i < 4; i++ {
+		wg.Add(1)
+		go func(i int) {
+			defer wg.Done()
+			n := 0
+			for {
+				select {
+				case <-stop:
+					mu.Lock()
+					total += n
+					mu.Unlock()
+					return
+				default:
+				}
+				ctx, cancel := context.WithCancel(context.Background())
+				if (n+i)%7 == 0 {
+					cancel()
+				}
+				_, _ = w.b.Send(ctx, ety(etyN), n)
+				cancel()
+				n++
+			}
+		}(i)
+	}
+	wg.Add(1)
+	go func() {
+		defer wg.Done()
+		for k := 0; ; k++ {
+			select {
+			case <-stop:
+				return
+			default:
+			}
+			_ = w.b.SetSuccessThreshold(ety(etyN), k%2)
+			_ = w.b.SetSuccessThresholdSinks(ety(etyN), (k/2)%2)
+		}
+	}()
+	time.Sleep(time.Duration(ms) * time.Millisecond)
+	close(stop)
+	done := make(chan struct{})
+	go func() { wg.Wait(); close(done) }()
+	select {
+	case <-done:
+		mu.Lock()
+		defer mu.Unlock()
+		return total, false
+	case <-time.After(3 * time.Second):
+		mu.Lock()
+		defer mu.Unlock()
+		return total, true
+	}
+}
+
 // execCase runs the Sends of a case on one Broker, the registry calls of each step in between; one Result per Send
 func execCase(c Case) []Result {
 	b, _ := el.NewBroker()
-	w := &world{b: b, caller: make(chan func()), payloadKind: c.Payload}
+	w := &world{b: b, caller: make(chan func()), payloadKind: c.Payload, c: &c, reent: c.Reent}
 	switch c.Clock {
 	case 1:
 		t := time.Date(2001, 2, 3, 4, 5, 6, 7, time.UTC)
@@ -1162,8 +1288,22 @@ func execCase(c Case) []Result {
 	var held *flight
 	heldAt := -1
 	for i, st := range steps {
-		for _, op := range st.Ops {
-			w.apply(op, &c)
+		stressSends, stressHung := 0, false
+		if st.StressMs > 0 {
+			stressSends, stressHung = w.stress(st.StressEty, st.StressMs)
+		}
+		// (on a wedged Broker a registry call never returns: do not wedge the driver with it)
+		opsDone := make(chan struct{})
+		go func() {
+			defer close(opsDone)
+			for _, op := range st.Ops {
+				w.apply(op, &c)
+			}
+		}()
+		select {
+		case <-opsDone:
+		case <-time.After(3 * time.Second):
+			stressHung = true
 		}
 		if len(st.Async) > 0 {
 			done := make(chan struct{})
@@ -1181,6 +1321,7 @@ func execCase(c Case) []Result {
 			}
 		}
 		f := w.startSend(st.Ety, st.Gate, st.Sched)
+		f.res.StressSends, f.res.StressHung = stressSends, stressHung
 		flights = append(flights, f)
 		if st.Sched.HoldGate && f.res.Returned && i+1 < len(steps) {
 			// its gated nodes stay parked while the next Send runs
@@ -1340,7 +1481,10 @@ func opLit(op Op) string {
 }
 
 func caseLit(c Case, res Result) string {
-	var hist, trace, calls, rets, snap []string
+	var hist, trace, calls, rets, snap, during []string
+	for _, op := range res.During {
+		during = append(during, opLit(op))
+	}
 	for _, op := range c.Hist {
 		hist = append(hist, opLit(op))
 	}
@@ -1371,8 +1515,8 @@ func caseLit(c Case, res Result) string {
 		}
 		snapLit = "Some " + hc.List(snap)
 	}
-	return fmt.Sprintf("{| d_id := %s; d_hist := %s; d_ety := %s; d_snapshot := %s; d_pre := %s;\n   d_trace := %s;\n   d_quiet := %s; d_leak := %s; d_nodecalls := %s; d_noderets := %s; d_event0_ok := %s; d_status := (%s, %s, %s); d_err := %s; d_err_ctx := %s |}",
-		hc.N(c.ID), hc.List(hist), hc.N(c.Ety), snapLit, hc.B(c.Sched.Pre), hc.List(trace),
+	return fmt.Sprintf("{| d_id := %s; d_hist := %s; d_ety := %s; d_snapshot := %s; d_during := %s; d_pre := %s;\n   d_trace := %s;\n   d_quiet := %s; d_leak := %s; d_nodecalls := %s; d_noderets := %s; d_event0_ok := %s; d_status := (%s, %s, %s); d_err := %s; d_err_ctx := %s |}",
+		hc.N(c.ID), hc.List(hist), hc.N(c.Ety), snapLit, hc.List(during), hc.B(c.Sched.Pre), hc.List(trace),
 		hc.B(res.Quiet), hc.B(res.Leaked != ""), hc.List(calls), hc.List(rets), hc.B(res.Event0OK), hc.NList(res.Complete), hc.NList(res.Sinks), hc.NList(res.Warnings),
 		hc.B(res.Err), hc.B(res.ErrCtx))
 }
@@ -1429,6 +1573,8 @@ func (e *emitter) runSeq(c Case) []Result {
 		hist = append(hist, st.Ops...)
 		hist = append(hist, st.Async...)
 		view := Case{ID: e.nextID, Gen: c.Gen, Hist: append([]Op{}, hist...), Ety: st.Ety, Beh: c.Beh, Gate: st.Gate, Sched: st.Sched}
+		// what the nodes did to the registry during this Send belongs to the history of the following Sends
+		hist = append(hist, res.During...)
 		e.account(view, res, len(results) > 1)
 		if err := e.cf.Add(caseLit(view, res)); err != nil {
 			panic(err)
@@ -1481,6 +1627,13 @@ func (e *emitter) account(c Case, res Result, inSeq bool) {
 	}
 	if res.AsyncBlocked {
 		e.stats["third_party_registry_call_blocked"]++
+	}
+	if len(res.During) > 0 {
+		e.stats["sends_during_which_nodes_changed_the_registry"]++
+	}
+	e.stats["stress_sends"] += res.StressSends
+	if res.StressHung {
+		e.stats["stress_hung"]++
 	}
 	if !res.HasGraph {
 		e.stats["no_graph"]++
@@ -1572,6 +1725,7 @@ func main() {
 	seqRandom := flag.Int("sequence-random", 20, "sequence: random multi-Send sequences in addition to all ordered pairs of registry mutations")
 	twoReps := flag.Int("twosend-reps", 3, "twosend: repetitions of the (cancelled Send with a parked node, independent Send) pair per Broker")
 	twoGates := flag.Int("twosend-gates", 2, "twosend: gated positions (root nodes first) for the third-party registry calls")
+	stressMs := flag.Int("stress-ms", 1200, "stress: milliseconds of Sends racing threshold setters")
 	perShard := flag.Int("per-shard", 250, "cases per file")
 	corpus := flag.String("corpus", "", "corpus file (JSON lines), run first")
 	corpusRepeat := flag.Int("corpus-repeat", 5, "runs per corpus case")
@@ -1627,6 +1781,10 @@ func main() {
 			genPaths(e)
 		case "classes":
 			genClasses(e)
+		case "reentrant":
+			genReentrant(e)
+		case "stress":
+			genStress(e, *stressMs)
 		case "sequence":
 			genSequence(e, r.Fork(), *seqRandom)
 		case "twosend":
